@@ -47,6 +47,12 @@ PROJECTS = {
     "std-shadowed-by-a-file": ('include "stdgates.inc" ; include "f.qasm" ; qubit q ; h q ; int c = b ;', {"stdgates.inc": "int zz = 1 ;", "f.qasm": "int b = 1 ;"}),
     "std-name-in-a-directory": ('include "lib/stdgates.inc" ; int a = zz ; include "stdgates.inc" ; qubit q ; h q ;', {"lib/stdgates.inc": "int zz = 1 ;"}),
     "std-name-dot-slash": ('include "./stdgates.inc" ; int a ;', {"./stdgates.inc": "int zz = 1 ;"}),
+    # annotations / pragmas at the seams: an annotation that ends an included file belongs to the next statement of the includer
+    "annotation-ends-file": ('include "f.qasm" ; int b ; int c ;', {"f.qasm": "int a ; @keep·this"}),
+    "annotation-ends-nested-file": ('include "f.qasm" ; qubit q ; int c ;', {"f.qasm": 'int a ; include "g.qasm" ;', "g.qasm": "int z ; @keep·this @and·that"}),
+    "annotation-before-include": ('int a ; @keep·this include "f.qasm" ; int c ;', {"f.qasm": "int b ; int d ;"}),
+    "annotation-inside-file": ('int a ; include "f.qasm" ; int c ;', {"f.qasm": "@keep·this int b ; pragma·x·y int d ;"}),
+    "pragma-ends-file": ('include "f.qasm" ; int b ;', {"f.qasm": "int a ; pragma·x·y"}),
     "not-global": ('int a ; if ( true ) { include "stdgates.inc" ; }', {}),
     "not-global-while": ('int a ; while ( true ) { include "stdgates.inc" ; a = 1 ; }', {}),
 }
@@ -209,7 +215,17 @@ class H(semh.Base):
         return semh.Base.site(self, outcome, detail)[:230] + " @" + self.task[0]
 
     def words(self, text):
-        return self.toks_from(text) if text.strip() else []
+        """a word `@keep·this` / `pragma·x·y` (· for the blanks inside the line) is one ANNOTATION / PRAGMA token"""
+        if not text.strip():
+            return []
+        out = []
+        for kn, w, joint in self.toks_from(text):
+            if isinstance(w, str) and w.startswith("@") and len(w) > 1:
+                kn, w = "ANNOTATION", w.replace("·", " ")
+            elif isinstance(w, str) and w.startswith("pragma·"):
+                kn, w = "PRAGMA", w.replace("·", " ")
+            out.append((kn, w, joint))
+        return out
 
     def parse_tokens(self, ex, key, toks):
         """ParsedSource for a token list (real to_input / parser / intersperse_trivia / validate), cached"""
